@@ -264,7 +264,7 @@ def check_subset(kind, S):
             if isinstance(got, dict) and set(got.items()) < set(S.items()):
                 probs.append(("drawn-incompletely", "contents %s drawn as %r which reads back as %s: cells %s are missing" % (_fmt(S), text, _fmt(got), sorted(set(S) - set(got)))))
             else:
-                probs.append(("drawn-wrongly", "contents %s drawn as %r which reads back as %s" % (_fmt(S), text, _fmt(got) if isinstance(got, dict) else got)))
+                probs.append(("drawn-incompletely", "contents %s drawn as %r which reads back as %s: cells are displaced/missing" % (_fmt(S), text, _fmt(got) if isinstance(got, dict) else got)))
         else:
             # writer vs. independent format model
             rr = ref_read(kind, _toklines(text))
@@ -291,6 +291,14 @@ def check_subset(kind, S):
     if rt is not None:
         try:
             mr, got = _read(kind, rt)
+            # reading is a function of the text: a map object that has read a wider map before
+            # reads this text to the same contents
+            used = _cls(kind)()
+            used.readAscii(_wide_text(kind))
+            used.readAscii(rt)
+            again = {k: v for k, v in used.items() if v != PLACEHOLDER}
+            if again != got:
+                probs.append(("read-depends-on-previous-read", "text %r is read as %s by a fresh map object but as %s by one that has read a wider map before" % (rt, _fmt(got), _fmt(again))))
             if got != S:
                 probs.append(("read-differs-from-format", "reference text %r of %s is read as %s" % (rt, _fmt(S), _fmt(got))))
             else:
@@ -301,6 +309,16 @@ def check_subset(kind, S):
         except Exception as e:
             probs.append(("read-raises", "reference text %r of %s: readAscii/write raises %r" % (rt, _fmt(S), e)))
     return outcome, probs, rt is not None
+
+
+_WIDE = {}
+
+
+def _wide_text(kind):
+    if kind not in _WIDE:
+        cells = {"third": third_cells(6), "full": full_cells(4), "tips": full_cells(4), "cart": [(i, j) for i in range(6) for j in range(6)]}[kind]
+        _WIDE[kind] = ref_text(kind, {c: "W" for c in cells})
+    return _WIDE[kind]
 
 
 def _fmt(S):
@@ -351,7 +369,9 @@ def cases(quick, chunk=4096):
     out_of_third = [(-1, 1), (-1, 0), (1, -1)]
     # (cls, universe, sizes filter)
     fams.append(("third", third_cells(3) + out_of_third, None))
-    fams.append(("third", third_cells(4 if quick else 5), None))
+    fams.append(("third", third_cells(4), None))
+    if not quick:
+        fams.append(("third", third_cells(5), [4, 18]))  # 21 cells: |S| <= 4 or >= 18
     for k in ("full", "tips"):
         fams.append((k, full_cells(2), None))
         fams.append((k, full_cells(3), [3, 17] if quick else None))
